@@ -95,6 +95,10 @@ def check_stats(K, chunked):
         if chunked:
             h = K // 2
             I.call_method(ctx, rs, "update_from_it", [xs[:h]])
+            if h:
+                # the statistics are read in between (a memoised value must not survive the next update)
+                for prop in ("var", "std", "err"):
+                    I._invoke(ctx, I.props[("RunningStatistics", prop)], [rs], {})
             for x in xs[h:]:
                 I.call_method(ctx, rs, "update", [x])
         else:
@@ -177,6 +181,53 @@ def check_matrix(K, n):
     return merge(res)
 
 
+def check_matrix_reads(K, n):
+    """covar_matrix / sample_covar_matrix read between two chunks and again at the end: every entry of the second
+    read is the closed form over ALL samples fed so far (and of the first read over the first chunk)"""
+    I = make_interp()
+    series = [[z3.Real("s%d_%d" % (j, i)) for i in range(K)] for j in range(n)]
+    h = max(1, K // 2)
+
+    def runner(ctx):
+        a = I.new(ctx, "RunningCovarianceMatrix", n)
+        I.call_method(ctx, a, "update_from_it", [list(s[:h]) for s in series])
+        m1 = I._invoke(ctx, I.props[("RunningCovarianceMatrix", "covar_matrix")], [a], {})
+        s1 = I._invoke(ctx, I.props[("RunningCovarianceMatrix", "sample_covar_matrix")], [a], {}) if h > 1 else None
+        if K > h:
+            I.call_method(ctx, a, "update_from_it", [list(s[h:]) for s in series])
+        m2 = I._invoke(ctx, I.props[("RunningCovarianceMatrix", "covar_matrix")], [a], {})
+        s2 = I._invoke(ctx, I.props[("RunningCovarianceMatrix", "sample_covar_matrix")], [a], {}) if K > 1 else None
+        if K > h:
+            for i in range(K):
+                pass
+        return m1, s1, m2, s2
+
+    def closed(i, j, upto):
+        xs, ys = series[i][:upto], series[j][:upto]
+        Sx, Sy = z3.Sum(xs) if upto > 1 else xs[0], z3.Sum(ys) if upto > 1 else ys[0]
+        Sxy = z3.Sum([x * y for x, y in zip(xs, ys)]) if upto > 1 else xs[0] * ys[0]
+        return Sxy - Sx * Sy / upto
+
+    res = []
+    for ctx, (m1, s1, m2, s2) in all_paths(Explorer([]), runner):
+        obl = []
+        for (mat, upto, div, nm) in ((m1, h, h, "covar_matrix after the first chunk"),
+                                     (s1, h, h - 1, "sample_covar_matrix after the first chunk"),
+                                     (m2, K, K, "covar_matrix after both chunks"),
+                                     (s2, K, K - 1, "sample_covar_matrix after both chunks")):
+            if mat is None:
+                continue
+            if not isinstance(mat, dict) or sorted(mat) != [(i, j) for i in range(n) for j in range(n)]:
+                obl.append((nm + ": an n x n matrix", False))
+                continue
+            for i in range(n):
+                for j in range(n):
+                    obl.append(("%s [%d,%d] == closed form" % (nm, i, j),
+                                neq(mat[(i, j)], closed(min(i, j), max(i, j), upto) / div)))
+        res.append(discharge(ctx, obl, [v for s in series for v in s]))
+    return merge(res)
+
+
 def check_converged(K):
     """converged(rtol, atol) <=> err < rtol * |mean| + atol with err >= 0, err^2 * count^2 == M2"""
     I = make_interp()
@@ -223,7 +274,7 @@ def discharge(ctx, obl, vars_):
             # fails on every input of this path: any model of the path condition is a witness
             if check(s) == "sat":
                 m = s.model()
-                out["fail"].append((desc, [str(m.eval(v, model_completion=True)) for v in vars_[:12]]))
+                out["fail"].append((desc, [str(m.eval(v, model_completion=True)) for v in vars_[:32]]))
             continue
         s.add(neg)
         r = check(s)
@@ -231,7 +282,7 @@ def discharge(ctx, obl, vars_):
             out["discharged"] += 1
         elif r == "sat":
             m = s.model()
-            w = [str(m.eval(v, model_completion=True)) for v in vars_[:12]]
+            w = [str(m.eval(v, model_completion=True)) for v in vars_[:32]]
             out["fail"].append((desc, w))
         else:
             out["inconclusive"].append(desc)
@@ -257,6 +308,8 @@ def job(args):
             r = check_covar(K)
         elif kind == "matrix":
             r = check_matrix(K, extra)
+        elif kind == "matrix_reads":
+            r = check_matrix_reads(K, extra)
         else:
             r = check_converged(K)
     except PathExplosion as e:
@@ -332,6 +385,7 @@ def run(tier):
     jobs += [("stats", K, ch) for K in Ks for ch in (False, True)]
     jobs += [("covar", K, None) for K in Kc]
     jobs += [("matrix", K, n) for K, n in Km]
+    jobs += [("matrix_reads", K, n) for K, n in Km if K >= 2]
     jobs += [("converged", K, None) for K in (1, 2, 3, 5, 10, 100, 1000)]
     with Pool(int(os.environ.get("VF_JOBS", "14")), initializer=_set_tier, initargs=(tier,)) as pool:
         results = pool.map(job, jobs, chunksize=1)
@@ -406,6 +460,33 @@ def replay_fail(K, kind, witness):
         try:
             bad = rc.count != h or abs(rc.covar - ref) > 1e-6 * scale
             return bad, "count=%s covar=%s vs %d samples, numpy %s" % (rc.count, rc.covar, h, ref)
+        except Exception as e:  # noqa
+            return True, "raises %s: %s" % (type(e).__name__, e)
+    if kind == "matrix_reads":
+        n = 2
+        while len(vals) % n or (len(vals) // n) != K:
+            n += 1
+            if n > 8:
+                return False, "cannot split the witness"
+        series = [vals[i * K:(i + 1) * K] for i in range(n)]
+        h = max(1, K // 2)
+        rcm = u.RunningCovarianceMatrix(n)
+        try:
+            rcm.update_from_it(*[s_[:h] for s_ in series])
+            first = rcm.covar_matrix
+            if K > 1 and h > 1:
+                rcm.sample_covar_matrix
+            if K > h:
+                rcm.update_from_it(*[s_[h:] for s_ in series])
+            cm = rcm.covar_matrix
+            scm = rcm.sample_covar_matrix if K > 1 else None
+            ref = np.cov(np.array(series), bias=True) if K > 1 else np.zeros((n, n))
+            sref = np.cov(np.array(series), bias=False) if K > 1 else None
+            scale = 1 + max(abs(v) for v in vals) ** 2
+            bad = bool((abs(cm - ref) > 1e-6 * scale).any()) or \
+                (scm is not None and bool((abs(scm - sref) > 1e-6 * scale).any()))
+            return bad, "two chunks with a read in between: covar_matrix=%s vs numpy %s" % (
+                cm.tolist(), np.asarray(ref).tolist())
         except Exception as e:  # noqa
             return True, "raises %s: %s" % (type(e).__name__, e)
     if kind == "matrix":
